@@ -6,6 +6,10 @@
 -- software will be governed by the Apache License, Version 2.0, included in
 -- the file licenses/APL2.txt.
 
+/* Create everything in one transaction, so that a process dying half-way leaves an empty database
+   (user_version still 0, no tables) that the next open can initialize, rather than a half-built one. */
+BEGIN;
+
 CREATE TABLE bucket (
 	name 		text not null,
 	uuid 		text not null,
@@ -66,3 +70,5 @@ INSERT INTO COLLECTIONS (scope, name) VALUES ($SCOPE, $COLL);
 
 /* Bump the user_version to indicate the schema is created */
 PRAGMA user_version = 1;
+
+COMMIT;
